@@ -93,7 +93,8 @@ pub struct CommandResult {
 
 #[derive(Debug, Clone)]
 pub enum ProgressEvent {
-    Update([usize; 6]),
+    /// The six per-state counts and what `StateCounts::total` makes of them.
+    Update([usize; 6], usize),
     TaskStarted(usize),
     TaskOutput(usize, Vec<u8>),
     TaskFinished {
@@ -418,7 +419,8 @@ impl crate::progress::Progress for VerifProgress {
             counts.get(BuildState::Done),
             counts.get(BuildState::Failed),
         ];
-        with_hooks(|h| h.progress(ProgressEvent::Update(c)));
+        let total = counts.total();
+        with_hooks(|h| h.progress(ProgressEvent::Update(c, total)));
     }
     fn task_started(&self, id: BuildId, _build: &Build) {
         with_hooks(|h| h.progress(ProgressEvent::TaskStarted(id.index())));
